@@ -289,6 +289,77 @@ def structure(root, *, strip_tags: bool = False) -> str:
         sys.setrecursionlimit(old)
 
 
+def replace_field(obj, name: str, value):
+    """copy of *obj* with one dataclass field replaced."""
+    from pytato.array import DictOfNamedArrays
+    if isinstance(obj, DictOfNamedArrays):
+        if name == "_data":
+            return type(obj)(data=value, tags=obj.tags)
+        return type(obj)(data=obj._data, tags=value)
+    return dataclasses.replace(obj, **{name: value})
+
+
+def _map_nested(value, f):
+    """apply f to every graph node nested in tuples/mappings/slices; returns
+    (new value, changed?)"""
+    from constantdict import constantdict
+    from pytato.array import NormalizedSlice
+    if is_node(value):
+        new = f(value)
+        return new, new is not value
+    if isinstance(value, tuple):
+        parts = [_map_nested(v, f) for v in value]
+        if any(c for _, c in parts):
+            return tuple(v for v, _ in parts), True
+        return value, False
+    if isinstance(value, Mapping):
+        parts = {k: _map_nested(v, f) for k, v in value.items()}
+        if any(c for _, c in parts.values()):
+            new = {k: v for k, (v, _) in parts.items()}
+            return (constantdict(new) if isinstance(value, constantdict)
+                    else new), True
+        return value, False
+    if isinstance(value, NormalizedSlice):
+        parts = [_map_nested(getattr(value, nm), f)
+                 for nm in ("start", "stop", "step")]
+        if any(c for _, c in parts):
+            return NormalizedSlice(*[v for v, _ in parts]), True
+        return value, False
+    return value, False
+
+
+def rebuild(root, repl: dict[int, Any]):
+    """copy of the graph under *root* in which every node n with id(n) in
+    *repl* is replaced by repl[id(n)]; parents are re-created with
+    dataclasses.replace, untouched sub-graphs are shared."""
+    memo: dict[int, Any] = {}
+
+    def go(n):
+        k = id(n)
+        if k in repl:
+            return repl[k]
+        if k in memo:
+            return memo[k]
+        changed = {}
+        for name, value in fields_of(n):
+            new, ch = _map_nested(value, go)
+            if ch:
+                changed[name] = new
+        res = n
+        for name, value in changed.items():
+            res = replace_field(res, name, value)
+        memo[k] = res
+        return res
+
+    import sys
+    old = sys.getrecursionlimit()
+    sys.setrecursionlimit(max(old, 20000))
+    try:
+        return go(root)
+    finally:
+        sys.setrecursionlimit(old)
+
+
 def data_arrays(root) -> list[np.ndarray]:
     from pytato.array import DataWrapper
     return [n.data for n in walk(root).values()
